@@ -13,6 +13,9 @@ pub enum Ev {
     Start(OpSpec),
     /// start an operation whose future is not polled yet (held from the beginning)
     StartHeld(OpSpec),
+    /// start an operation on the long-lived worker handle itself / on a clone of it taken now
+    StartW(OpSpec),
+    StartWC(OpSpec),
     Cancel(usize),
     Hold(Tid),
     Release(Tid),
@@ -46,6 +49,8 @@ impl Ev {
         match self {
             Ev::Start(s) => format!("Start({})", s.brief()),
             Ev::StartHeld(s) => format!("StartHeld({})", s.brief()),
+            Ev::StartW(s) => format!("StartOnWorkerHandle({})", s.brief()),
+            Ev::StartWC(s) => format!("StartOnCloneOfWorkerHandle({})", s.brief()),
             Ev::Cancel(i) => format!("Cancel(op{})", i),
             Ev::Hold(t) => format!("Hold({:?})", t),
             Ev::Release(t) => format!("Release({:?})", t),
@@ -117,7 +122,7 @@ impl Ev {
             SPacket::Raw(_) => "RAW".into(),
         };
         match self {
-            Ev::Start(s) | Ev::StartHeld(s) => format!(
+            Ev::Start(s) | Ev::StartHeld(s) | Ev::StartW(s) | Ev::StartWC(s) => format!(
                 "Start({})",
                 match s {
                     OpSpec::Publish(p) => format!("publish-q{}", p.qos()),
@@ -375,6 +380,53 @@ impl Sys {
         if flavour == 0 {
             return self.bring_up(connack_props);
         }
+        if flavour == 3 || flavour == 4 {
+            // The SECOND connection of a Context whose first connection ended at an awkward moment:
+            //  3 = end-of-stream three bytes into an inbound packet (left-over bytes in the reader);
+            //  4 = the write of an acknowledgement failed (a half-finished answer).
+            // Nothing of that may leak into the new connection. (No disconnection is recorded, so this
+            // is not a resume: the session bookkeeping simply lives on.)
+            self.auto_exit = false;
+            self.bring_up(vec![]);
+            if self.dead {
+                return;
+            }
+            let first = SPacket::Publish {
+                dup: false,
+                qos: 1,
+                retain: false,
+                topic: "in/first".into(),
+                pid: Some(4242),
+                props: vec![],
+                payload: b"first-connection".to_vec(),
+            };
+            if flavour == 3 {
+                self.apply(Ev::PartialThenEof(first, 3));
+            } else {
+                self.apply(Ev::WriteErr);
+                self.apply(Ev::Deliver(first));
+            }
+            if self.dead {
+                return;
+            }
+            self.events.push("Reconnect".into());
+            self.classes.push("Reconnect".into());
+            self.w.new_wire();
+            self.m.new_wire();
+            self.connect_with(
+                ConnectSpec::default(),
+                SPacket::Connack {
+                    session_present: false,
+                    reason: 0,
+                    props: connack_props,
+                },
+            );
+            if !self.dead {
+                self.start_run();
+            }
+            self.auto_exit = true;
+            return;
+        }
         if flavour == 2 {
             // the CONNACK arrives through authorize() after an extended-authentication round trip
             self.connect_with(
@@ -486,6 +538,16 @@ impl Sys {
             Ev::Start(spec) => {
                 let a = self.m.start(spec.clone());
                 let b = self.w.start_op(spec);
+                assert_eq!(a, b, "harness: op index mismatch");
+            }
+            Ev::StartW(spec) => {
+                let a = self.m.start_on_worker(spec.clone(), 1);
+                let b = self.w.start_op_worker(spec, 1);
+                assert_eq!(a, b, "harness: op index mismatch");
+            }
+            Ev::StartWC(spec) => {
+                let a = self.m.start_on_worker(spec.clone(), 2);
+                let b = self.w.start_op_worker(spec, 2);
                 assert_eq!(a, b, "harness: op index mismatch");
             }
             Ev::StartHeld(spec) => {
